@@ -70,6 +70,8 @@ def cases(tier, seed):
                 if tier == "quick" and rnd.random() < 0.0 and not (pb and dist.startswith("MeanField")):
                     continue
                 yield {"kind": "svgp", "pbatch": pb, "dbatch": db, "zbatch": zb, "strategy": strat, "dist": dist, "seed": rnd.randrange(10**6)}
+        for share, kern in itertools.product((["kernel"], ["lik"], ["mean"], ["kernel", "lik", "mean"]), ("matern", "kiss")):
+            yield {"kind": "shared_modules", "share": share, "kernel": kern, "members": rnd.choice([[4, 6], [5, 3, 4]]), "seed": rnd.randrange(10**6)}
         for bb in ([2], [2, 3], [3, 2], [1, 2]):
             yield {"kind": "vnngp", "batch": bb, "seed": rnd.randrange(10**6)}
         for T_, strat in itertools.product([2, 3], ["VariationalStrategy", "UnwhitenedVariationalStrategy"]):
@@ -105,7 +107,7 @@ def run_case(case, ctx):
     from vf import util
 
     g = util.gen(case["seed"])
-    return {"kernel": _kernel, "mean": _mean, "lik": _lik, "exact": _exact, "svgp": _svgp, "indep_mt": _indep_mt, "vnngp": _vnngp, "modellist": _modellist}[case["kind"]](case, ctx, g)
+    return {"kernel": _kernel, "mean": _mean, "lik": _lik, "exact": _exact, "svgp": _svgp, "indep_mt": _indep_mt, "vnngp": _vnngp, "shared_modules": _shared_modules, "modellist": _modellist}[case["kind"]](case, ctx, g)
 
 
 def _ex(t, full, *rest):
@@ -549,6 +551,61 @@ def _indep_mt(case, ctx, g):
     ctx.close("svgp_replica", sub.mean, rm[torch.arange(n), ti], (1e-7, 1e-7), cls="indep_mt:task_indices:mean")
     ctx.close("svgp_replica", sub.covariance_matrix, rc[ti, torch.arange(n)] * same, (1e-7, 1e-7), cls="indep_mt:task_indices:cov")
     ctx.cell({"kind": "indep_mt", "T": T, "strategy": case["strategy"]})
+
+
+def _shared_modules(case, ctx, g):
+    """members of an IndependentModelList that SHARE modules (one kernel object, one likelihood object, one mean object; or
+    all three) on different data: every member's output, the list's marginal log likelihood and the members' predictions equal
+    those of stand-alone twins holding their own copies of the same parameters - whatever was evaluated before on a sibling"""
+    import copy
+
+    import torch
+
+    import gpytorch
+    from vf import util
+
+    K = gpytorch.kernels
+    share = case["share"]
+    kern = K.ScaleKernel(K.MaternKernel(nu=2.5, ard_num_dims=D)) if case["kernel"] == "matern" else K.ScaleKernel(K.GridInterpolationKernel(K.RBFKernel(), grid_size=8, num_dims=D, grid_bounds=[(-4.0, 4.0)] * D))
+    mean = gpytorch.means.ConstantMean()
+    lik = gpytorch.likelihoods.GaussianLikelihood()
+    util.randomize(kern, g, 0.4)
+    util.randomize(mean, g, 0.5)
+    util.randomize(lik, g, 0.4)
+    members, twins, data = [], [], []
+    for n in case["members"]:
+        X, y = util.randn(g, n, D).clamp(-3.5, 3.5), util.randn(g, n)
+        k_ = kern if "kernel" in share else copy.deepcopy(kern)
+        m_ = mean if "mean" in share else copy.deepcopy(mean)
+        l_ = lik if "lik" in share else copy.deepcopy(lik)
+        members.append(util.GP(X, y, l_, m_, k_))
+        twins.append(util.GP(X, y, copy.deepcopy(lik), copy.deepcopy(mean), copy.deepcopy(kern)))
+        data.append((X, y))
+    ml = gpytorch.models.IndependentModelList(*members)
+    xs = util.randn(g, 3, D).clamp(-3.5, 3.5)
+    with torch.no_grad():
+        for rnd_ in range(2):  # twice: the second pass meets whatever the first left behind
+            ml.train()
+            outs = ml(*ml.train_inputs)
+            s = gpytorch.mlls.SumMarginalLogLikelihood(ml.likelihood, ml)(outs, ml.train_targets)
+            vals = []
+            for i, (o, tw, (X, y)) in enumerate(zip(outs, twins, data)):
+                tw.train()
+                own = tw(X)
+                ctx.close("model_list_identical", torch.cat([o.mean, o.covariance_matrix.reshape(-1)]), torch.cat([own.mean, own.covariance_matrix.reshape(-1)]), (1e-10, 1e-10), cls="shared:" + "+".join(share) + ":prior", member=i)
+                vals.append(gpytorch.mlls.ExactMarginalLogLikelihood(tw.likelihood, tw)(own, y))
+            ctx.close("sum_mll_is_mean", s, torch.stack(vals).mean(), (1e-9, 1e-9), cls="sum_mll:shared:" + "+".join(share), members=case["members"])
+            ml.eval()
+            order = list(range(len(members)))
+            if rnd_:
+                order = order[::-1]
+            for i in order:  # members are asked one after another (a sibling has just used the shared modules on other data)
+                o = members[i](xs)
+                twins[i].eval()
+                own = twins[i](xs)
+                tol = (1e-8, 1e-8) if case["kernel"] == "matern" else (1e-6, 1e-6)
+                ctx.close("model_list_identical", torch.cat([o.mean, o.covariance_matrix.reshape(-1)]), torch.cat([own.mean, own.covariance_matrix.reshape(-1)]), tol, cls="shared:" + "+".join(share) + ":posterior", member=i)
+    ctx.cell({k: v for k, v in case.items() if k != "seed"})
 
 
 def _modellist(case, ctx, g):
